@@ -2491,8 +2491,10 @@ def _contact_sort(maxmatch: int):
     sensor_contact_nmatch_in: wp.array2d[int],
     sensor_contact_matchid_in: wp.array3d[int],
     sensor_contact_criteria_in: wp.array3d[float],
+    sensor_contact_direction_in: wp.array3d[float],
     # Out:
     sensor_contact_matchid_out: wp.array3d[int],
+    sensor_contact_direction_out: wp.array3d[float],
   ):
     worldid, contactsensorid = wp.tid()
 
@@ -2513,6 +2515,12 @@ def _contact_sort(maxmatch: int):
     matchid_tile = wp.tile_load(sensor_contact_matchid_in[worldid, contactsensorid], shape=maxmatch)
     wp.tile_sort(criteria_tile, matchid_tile)
     wp.tile_store(sensor_contact_matchid_out[worldid, contactsensorid], matchid_tile)
+
+    # permute the contact directions with the same keys
+    criteria_tile = wp.tile_load(sensor_contact_criteria_in[worldid, contactsensorid], shape=maxmatch)
+    direction_tile = wp.tile_load(sensor_contact_direction_in[worldid, contactsensorid], shape=maxmatch)
+    wp.tile_sort(criteria_tile, direction_tile)
+    wp.tile_store(sensor_contact_direction_out[worldid, contactsensorid], direction_tile)
 
   return contact_sort
 
@@ -2661,8 +2669,15 @@ def sensor_acc(m: Model, d: Data):
     wp.launch_tiled(
       _contact_sort(m.opt.contact_sensor_maxmatch),
       dim=(d.nworld, m.sensor_contact_adr.size),
-      inputs=[m.sensor_intprm, m.sensor_contact_adr, sensor_contact_nmatch, sensor_contact_matchid, sensor_contact_criteria],
-      outputs=[sensor_contact_matchid],
+      inputs=[
+        m.sensor_intprm,
+        m.sensor_contact_adr,
+        sensor_contact_nmatch,
+        sensor_contact_matchid,
+        sensor_contact_criteria,
+        sensor_contact_direction,
+      ],
+      outputs=[sensor_contact_matchid, sensor_contact_direction],
       block_dim=m.block_dim.contact_sort,
     )
 
